@@ -34,6 +34,25 @@ _want_spacing = {
 
 _want_spacing.update(dict.fromkeys(PlyLexer.keywords, (2, 2)))
 
+# user defined literals are spaced like the literal they are made from
+_want_spacing.update(
+    dict.fromkeys(
+        (f"UD_{t}" for t in LexerTokenStream._user_defined_literal_start), (2, 2)
+    )
+)
+
+# (previous token type, token type) pairs that are always separated, because
+# the lexer would otherwise read the two tokens as a different token
+# fmt: off
+_want_separation = {
+    ("&", "&"), ("&", "DBL_AMP"), (":", ":"), (":", "DBL_COLON"),
+    ("<", "<"), ("<", "SHIFT_LEFT"), ("|", "|"), ("|", "DBL_PIPE"),
+    ("[", "["), ("[", "DBL_LBRACKET"), ("]", "]"), ("]", "DBL_RBRACKET"),
+    ("-", ">"), ("DIVIDE", "DIVIDE"), ("DIVIDE", "*"),
+    (".", "."), (".", "ELLIPSIS"),
+}
+# fmt: on
+
 
 @dataclass
 class Token:
@@ -61,6 +80,7 @@ def tokfmt(toks: typing.List[Token]) -> str:
     Helper function that takes a list of tokens and converts them to a string
     """
     last = 0
+    last_type = ""
     vals = []
     default = (0, 0)
     ws = _want_spacing
@@ -69,13 +89,14 @@ def tokfmt(toks: typing.List[Token]) -> str:
         value = tok.value
         # special case
         if value == "operator":
-            l, r = 2, 0
+            l, r = 2, 1
         else:
             l, r = ws.get(tok.type, default)
-        if l + last >= 3:
+        if l + last >= 3 or (last_type, tok.type) in _want_separation:
             vals.append(" ")
 
         last = r
+        last_type = tok.type
         vals.append(value)
 
     return "".join(vals)
